@@ -48,7 +48,7 @@ def handle : List String → String
     match parseBlocks blocks, parseInt? mint, parseInt? maxt, parseInt? maxres with
     | some bs, some mint, some maxt, some maxres =>
       let (s, failed) := BlockSet.addAll BlockSet.empty bs
-      showGetFor failed (BlockSet.getFor false false s mint maxt maxres)
+      showGetFor failed (BlockSet.getFor true true s mint maxt maxres)
     | _, _, _, _ => "bad-op"
   | _ => "bad-op"
 
